@@ -120,6 +120,4 @@ func cmdExplore(pkg, h string, tier, workers, unwind int) int {
 	return 0
 }
 
-func cmdCheck(args []string) int    { return 2 }
-func cmdReplay(args []string) int   { return 2 }
 func cmdSelftest(args []string) int { return 2 }
